@@ -24,20 +24,16 @@ def load_known():
         return {'known': [], 'fixed': []}
 
 
-def _match_known(entry, pid, kind, witness):
-    """A known finding names a property, a violation kind and exact values (or
-    regular expressions, key suffix '~') of fields of the witness."""
+def _match_known(entry, pid, kind, case, detail):
+    """A known finding names a property, a violation kind and regular expressions
+    that must be found in the canonical JSON of the witness case / of the detail."""
     import re
     if entry.get('property') != pid or entry.get('kind') != kind:
         return False
-    for k, v in entry.get('match', {}).items():
-        if k.endswith('~'):
-            got = witness.get(k[:-1])
-            if got is None or not re.search(v, got if isinstance(got, str) else _canon(got)):
-                return False
-        else:
-            if witness.get(k) != v:
-                return False
+    if 'case~' in entry and not re.search(entry['case~'], _canon(case)):
+        return False
+    if 'detail~' in entry and not re.search(entry['detail~'], _canon(detail)):
+        return False
     return True
 
 
@@ -125,7 +121,7 @@ class Run:
         for v in vs:
             entry = None
             for e in known.get('known', []):
-                if _match_known(e, self.pid, v.kind, v.case):
+                if _match_known(e, self.pid, v.kind, v.case, v.detail):
                     entry = e
                     break
             if entry is not None:
